@@ -461,7 +461,7 @@ def gen_history(rng, maxops):
                 m = rng.choice(['w', 'w', 'w', 'a', 'a', 'r'])
             else:
                 m = rng.choice(['w', 'w', 'w', 'a', 'a', 'a', 'r', 'r+', 'w+', 'a+', 'x'])
-            if binary[n]:
+            if binary[n] or m == 'r':
                 m += 'b'
             elif rng.random() < 0.1:
                 m += 't'
